@@ -449,7 +449,7 @@ package termincommittee
 //@   requires [term-not-yet-committed] ncommitted == 0
 //@   ensures [O9.lock-kept] LockKept(tic, old(tic.preparedLocally), old(tic.preparedLocally.isPreparedLocally), old(tic.preparedLocally.latestView))
 //@   inv GhostInv(tic)
-//@   props C03 C04 C10 C13 C09 C15 C12 C11
+//@   props C03 C04 C10 C13 C09 C15 C12 C11 C14
 //@   ensures [frame.proposal-log-and-election-marker-untouched] (forall fgv int :: ppStored[fgv] == old(ppStored[fgv]) && ppHash[fgv] == old(ppHash[fgv]) && sentPrepare[fgv] == old(sentPrepare[fgv])) && tic.latestViewThatProcessedVCMOrNVM == old(tic.latestViewThatProcessedVCMOrNVM)
 //@   safety iface
 //@   requires TicOK(tic)
